@@ -252,6 +252,10 @@ theorem asciiChars_no_newline (vs : TVals) : ∀ c ∈ asciiChars vs, c ≠ '\n'
     rcases hc with rfl | hc
     · exact asciiChar_no_newline v
     · exact ih c hc
+  | skip vs ih =>
+    intro c hc
+    simp only [asciiChars] at hc
+    exact ih c hc
   | scalar => trivial
   | arr => trivial
   | struct => trivial
@@ -308,6 +312,22 @@ theorem newline_indent_valid (s : List Char) (hs : ∀ c ∈ s, isSpace c = true
   · decide
   · exact hs c hc
 
+theorem unreadable_no_newline : ∀ c ∈ unreadable, c ≠ '\n' ∧ c ≠ '\r' := by decide
+
+theorem unreadable_index_comment_valid (i : Nat) (b : Base) (g : Bool) :
+    (Piece.comment (' ' :: '[' :: (writeInt .u64 i b g ++ (']' :: ':' :: ' ' :: unreadable)))).Valid := by
+  have hw := writeInt_validWord .u64 i b g
+  intro c hc
+  simp only [List.mem_cons, List.mem_append] at hc
+  rcases hc with rfl | rfl | hc | rfl | rfl | rfl | hc
+  · decide
+  · decide
+  · exact not_newline_of_not_delim c (hw.2 c hc)
+  · decide
+  · decide
+  · decide
+  · exact unreadable_no_newline c hc
+
 mutual
 theorem wellSep_val : ∀ (v : TVal) (o : Opts), o.Rereadable → v.WF →
     WellSep .other (writeVal o v) ∧ EndOk o (lastKind .other (writeVal o v))
@@ -339,7 +359,7 @@ theorem wellSep_val : ∀ (v : TVal) (o : Opts), o.Rereadable → v.WF →
       · simp [lastKind, lastKind_append, Piece.kind, EndOk]
     · have hsl : o.multiline = false := by simpa using hml
       simp only [hsl]
-      obtain ⟨hE1, hE2⟩ := wellSep_elemsSL vs o 0 .other ho hsl hvs (by simp [EndOk])
+      obtain ⟨hE1, hE2⟩ := wellSep_elemsSL vs o 0 false .other ho hsl hvs (by simp [EndOk])
       refine ⟨⟨pb, trivial, ?_⟩, ?_⟩
       · rw [wellSep_append]
         exact ⟨hE1, space1_valid, okAfter_space1 _ (endOk_sl o hsl _ hE2), pe, trivial, trivial⟩
@@ -387,20 +407,40 @@ theorem wellSep_elemsML : ∀ (vs : TVals) (o : Opts) (i : Nat) (k : Kind), o.Re
       exact ⟨hI1, hV1, hR1⟩
     · simp only [lastKind, Piece.kind, lastKind_append, hI2]
       exact hR2
+  | .skip vs, o, i, k, ho, hml, hvs, hk => by
+    have hvs' : vs.WF := hvs
+    rw [writeElemsML]
+    by_cases hc : o.comments = true
+    · simp only [hc, if_true, List.cons_append, List.nil_append]
+      obtain ⟨hR1, hR2⟩ := wellSep_elemsML vs o (i + 1) .comment ho hml hvs' (by simp [EndOk, hml])
+      refine ⟨⟨newline_indent_valid _ ho.plusOne.current_blank, okAfter_newline_space _ _, ?_,
+        by simp [OkAfter, Piece.kind], hR1⟩, by simpa [lastKind, Piece.kind] using hR2⟩
+      exact unreadable_index_comment_valid i o.base o.grouping
+    · simp only [hc]
+      simpa using wellSep_elemsML vs o (i + 1) k ho hml hvs' hk
 
-theorem wellSep_elemsSL : ∀ (vs : TVals) (o : Opts) (i : Nat) (k : Kind), o.Rereadable →
+theorem wellSep_elemsSL : ∀ (vs : TVals) (o : Opts) (i : Nat) (skipped : Bool) (k : Kind), o.Rereadable →
     o.multiline = false → vs.WF → EndOk o k →
-    WellSep k (writeElemsSL o i vs) ∧ EndOk o (lastKind k (writeElemsSL o i vs))
-  | .nil, o, i, k, _, _, _, hk => by
+    WellSep k (writeElemsSL o i skipped vs) ∧ EndOk o (lastKind k (writeElemsSL o i skipped vs))
+  | .nil, o, i, skipped, k, _, _, _, hk => by
     rw [writeElemsSL]; exact ⟨trivial, hk⟩
-  | .cons v vs, o, i, k, ho, hsl, hvs, hk => by
+  | .skip vs, o, i, skipped, k, ho, hsl, hvs, hk => by
+    have hvs' : vs.WF := hvs
+    have hc : o.comments = false := by
+      cases h : o.comments with
+      | false => rfl
+      | true => exact absurd (ho.comments_need_multiline h) (by simp [hsl])
+    rw [writeElemsSL]
+    simp only [hc, Bool.false_eq_true, if_false, List.nil_append]
+    exact wellSep_elemsSL vs o (i + 1) true k ho hsl hvs' hk
+  | .cons v vs, o, i, skipped, k, ho, hsl, hvs, hk => by
     obtain ⟨hv, hvs'⟩ : v.WF ∧ vs.WF := hvs
     rw [writeElemsSL]
     obtain ⟨hI1, hI2⟩ := indexMarker_wellSep o i
     obtain ⟨hV1, hV2⟩ := wellSep_val v o.plusOne ho.plusOne hv
     have hV2' : EndOk o (lastKind .other (writeVal o.plusOne v)) := (endOk_plusOne o _).mp hV2
-    have hM : WellSep .other (if i % 8 = 0 then indexMarker o i else []) ∧
-        lastKind .other (if i % 8 = 0 then indexMarker o i else []) = .other := by
+    have hM : WellSep .other (if i % 8 = 0 ∨ skipped = true then indexMarker o i else []) ∧
+        lastKind .other (if i % 8 = 0 ∨ skipped = true then indexMarker o i else []) = .other := by
       split
       · exact ⟨hI1, hI2⟩
       · exact ⟨trivial, rfl⟩
@@ -410,7 +450,7 @@ theorem wellSep_elemsSL : ∀ (vs : TVals) (o : Opts) (i : Nat) (k : Kind), o.Re
       split
       · exact ⟨trivial, hV2'⟩
       · exact ⟨⟨pc, okAfter_punct _ (endOk_sl o hsl _ hV2') _, trivial⟩, by simp [lastKind, Piece.kind, EndOk]⟩
-    obtain ⟨hR1, hR2⟩ := wellSep_elemsSL vs o (i + 1) _ ho hsl hvs' hC.2
+    obtain ⟨hR1, hR2⟩ := wellSep_elemsSL vs o (i + 1) false _ ho hsl hvs' hC.2
     refine ⟨⟨space1_valid, okAfter_space1 _ (endOk_sl o hsl _ hk), ?_⟩, ?_⟩
     · simp only [Piece.kind]
       rw [wellSep_append, wellSep_append, wellSep_append, hM.2]
@@ -492,6 +532,27 @@ theorem wellSep_fields : ∀ (fs : TFields) (o : Opts) (wrote : Bool) (k : Kind)
           exact render_scalar_no_newline o.plusOne s hs c hc'
       · simp only [List.cons_append, List.nil_append, lastKind, Piece.kind]
         exact hR2
+    · simp only [hc]
+      simpa using wellSep_fields fs o wrote k ho hfs' hk
+  | .skip name fs, o, wrote, k, ho, hfs, hk => by
+    obtain ⟨hname, hfs'⟩ : ValidWord name ∧ fs.WF := hfs
+    rw [writeFields]
+    by_cases hc : o.comments = true
+    · have hml := ho.comments_need_multiline hc
+      have hk' : k = .other := by simpa [StartOk, hml] using hk
+      subst hk'
+      simp only [hc, hml, if_true, List.cons_append, List.nil_append]
+      obtain ⟨hR1, hR2⟩ := wellSep_fields fs o wrote .other ho hfs' (by simp [StartOk, hml])
+      refine ⟨⟨ho.plusOne.current_blank, trivial, ?_, trivial, newline_valid,
+        by simp [OkAfter, Piece.kind], hR1⟩, by simpa [lastKind, Piece.kind] using hR2⟩
+      intro c hc'
+      simp only [List.mem_cons, List.mem_append] at hc'
+      rcases hc' with rfl | hc' | rfl | rfl | hc'
+      · decide
+      · exact not_newline_of_not_delim c (hname.2 c hc')
+      · decide
+      · decide
+      · exact unreadable_no_newline c hc'
     · simp only [hc]
       simpa using wellSep_fields fs o wrote k ho hfs' hk
 end
